@@ -75,11 +75,12 @@ func NewEvaluator(params ParameterProvider, evk EvaluationKeySet) (eval *Evaluat
 
 	eval.EvaluationKeySet = evk
 
-	var AutomorphismIndex map[uint64][]uint64
+	// Always allocated: entries for keys added to the key set later are inserted by CheckAndGetGaloisKey,
+	// which has a value receiver and could not store a newly created map.
+	AutomorphismIndex := make(map[uint64][]uint64)
 
 	if !utils.IsNil(evk) {
 		if galEls := evk.GetGaloisKeysList(); len(galEls) != 0 {
-			AutomorphismIndex = make(map[uint64][]uint64)
 
 			N := p.N()
 			NthRoot := p.RingQ().NthRoot()
@@ -252,10 +253,9 @@ func (eval Evaluator) ShallowCopy() *Evaluator {
 // and where the temporary buffers are shared. The receiver and the returned evaluators cannot be used concurrently.
 func (eval Evaluator) WithKey(evk EvaluationKeySet) *Evaluator {
 
-	var AutomorphismIndex map[uint64][]uint64
+	AutomorphismIndex := make(map[uint64][]uint64)
 
 	if galEls := evk.GetGaloisKeysList(); len(galEls) != 0 {
-		AutomorphismIndex = make(map[uint64][]uint64)
 
 		N := eval.params.N()
 		NthRoot := eval.params.RingQ().NthRoot()
